@@ -174,6 +174,50 @@ func init() {
 			}
 			cs = append(cs, c)
 		}
+		// a server with MANY tables: more than a thousand distinct table ids announced in one attempt (each written
+		// once), then statements over two tables at a time - the second one new - so that every cached id is still
+		// needed right after another table was looked up
+		{
+			cfg := allCfgs[r.Intn(len(allCfgs))]
+			h := &hist{cfg: cfg, ext: map[string][]string{}}
+			nt := r.Range(1030, 1100)
+			if tier == "thorough" {
+				nt = r.Range(2050, 2300)
+			}
+			for i := 0; i < nt+40; i++ {
+				h.tables = append(h.tables, &hTable{id: uint64(1000 + i), db: "big", name: fmt.Sprintf("t%04d", i),
+					cols: []hCol{{typ: 3, nullable: true, name: fmt.Sprintf("k%d", i), unsigned: i%2 == 0}}})
+			}
+			o := histOpts{maxRows: 1}
+			ts := uint32(1600000000)
+			for i := 0; i < nt; i += 8 { // eight single-table writes per transaction
+				ts++
+				u := hUnit{kind: "tx", ts: ts, begin: "BEGIN", closer: fmt.Sprintf("x%d", i)}
+				for k := i; k < i+8 && k < nt; k++ {
+					u.changes = append(u.changes, hChange{rows: genRows(r, h, o, k, ts, true)})
+				}
+				h.units = append(h.units, u)
+			}
+			for i := 0; i < 20; i++ { // multi-table statements: maps of A (seen long ago) and B (new), rows of A, rows of B
+				ts++
+				a, b := r.Intn(nt), nt+2*i
+				u := hUnit{kind: "tx", ts: ts, begin: "BEGIN", closer: fmt.Sprintf("x9%d", i)}
+				ra, rb := genRows(r, h, o, a, ts, true), genRows(r, h, o, b, ts, true)
+				ra2 := genRows(r, h, o, a, ts, false)
+				u.changes = append(u.changes, hChange{rows: ra}, hChange{rows: rb}, hChange{rows: ra2})
+				h.units = append(h.units, u)
+			}
+			c := histCase(h, firstFile, 4, "many-tables", true, "")
+			inner := c.Run
+			c.Run = func(resp map[string]string) Outcome {
+				o := inner(resp)
+				if !o.OracleOK {
+					o.FindingKey = "attribution-many-tables"
+				}
+				return o
+			}
+			cs = append(cs, c)
+		}
 		// several attempts on ONE Streamer (what a caller does after a disconnect). Between the attempts the tables
 		// were altered and the master restarted: the same ids and names now stand for other definitions (another
 		// column count, or other column names and signedness), and the mapper answers with the current ones. Each
